@@ -75,6 +75,21 @@ fn run_episode(ep: &Value, epno: usize, cache: &mut HashMap<String, Vocab>, tr: 
             if k > 0 && !fresh.is_empty() && rng.chance(60, 100) {
                 pbytes.extend_from_slice(&fresh[..1 + rng.below(fresh.len())]);
             }
+            if k == 2 && !fresh.is_empty() {
+                // a prompt whose tail, the whole forced text and one more byte together spell the beginning of a token
+                // (token healing then reaches back past the forced bytes into the prompt)
+                let cands: Vec<(usize, usize)> = (0..v1.n())
+                    .filter(|&t| !v1.is_special(t as u32))
+                    .flat_map(|t| {
+                        let w = &v1.words[t];
+                        (1..w.len()).filter(|&p| w.len() > p + fresh.len() && w[p..p + fresh.len()] == fresh[..]).map(|p| (t, p)).collect::<Vec<_>>()
+                    })
+                    .collect();
+                if !cands.is_empty() {
+                    let (t, p) = *rng.pick(&cands);
+                    pbytes.extend_from_slice(&v1.words[t][..p]);
+                }
+            }
             if pbytes.contains(&0xFF) {
                 continue;
             }
